@@ -8,6 +8,10 @@ NOTE_COMMON = ("Trusted base: go/packages + go/types + go/ssa of golang.org/x/to
                "so a large refactoring can raise an alarm although behaviour is preserved.")
 
 claimed = {
+ "C03": dict(
+   text="Decides structural necessary conditions of the control-flow clauses on the SSA form: loop operators compare the body's result with the exit signal, leave the loop and return nil, propagate other errors; exit/stop are intercepted nowhere else and Execute maps them to invalidexit/nil; body elements (nested call and tail jump) are dispatched with execute=false and looked-up values with true; dispatch happens only outside an open procedure body; load/where scan the dictionary stack top-down, first hit wins; bind resolves through the same lookup; if/ifelse run exactly the prescribed operand on opposite edges of the boolean test; per-iteration pushes of for/forall/loop/repeat, repeat's trip count, for's termination predicate (decision table) and control-variable update. Does not decide values or iteration counts of nested programs.",
+   technique="static analysis: go/ssa def-use and dominance rules per registered operator, phi-edge inspection of the dispatch loop, decision-table extraction of comparison-only predicates",
+   ref="DESIGN.md §5 C03"),
  "C11": dict(
    text="Decides structural necessary conditions of the budget, limit and start-check clauses on the SSA form of the interpreter core: single-writer operation counter whose block every dispatch iteration passes; budget test equivalent to MaxOps>0 && NumOps>MaxOps returning the sentinel (decision table); MaxOps read nowhere else (non-interference); sentinel excluded from the error-handler dispatch (never past N+1); no path to a nested executeOne call avoids the execution-depth gate (path-sensitive CFG search); operand-stack, dict-stack, procedure-nesting and handler-nesting growth dominated by constant bounds; array/string/dict sizes bounded with limitcheck; the %! comparison dominates the token loop under CheckStart and the flag is cleared. Does not decide equality of the final state with an unbudgeted run nor exact counts.",
    technique="static analysis: go/ssa dominance and who-may-write rules, decision-table extraction of comparison-only guards, path-sensitive CFG reachability with branch/type-switch facts",
